@@ -13,7 +13,7 @@ only = set(sys.argv[1:])   # optional: commit prefixes to re-validate (results m
 if only:
     fixed = [f for f in fixed if any(f[1].startswith(o) for o in only)]
 # a later fix touched the same lines: the revert conflicts; the catalogue holds a change that undoes exactly that fix
-EQUIVALENT_MUTANT = {"fb2b570": "c08-unsorted-match"}
+EQUIVALENT_MUTANT = {"fb2b570": "c08-unsorted-match", "ac2e788": "c15-first-member-key", "ce05c05": "c08-match-decoy-global-rng"}
 # checks that own the fix (a fix may be found by a workload of another property)
 owner_override = {}
 classes = {"C01": None}
